@@ -45,6 +45,7 @@ type Engine struct {
 	epochs   int
 	tu       *typeUniverse
 	withLemmas bool
+	pureBody   map[*ssa.Function]bool
 }
 
 type Options struct {
@@ -63,7 +64,7 @@ func LoadEngine(repo string, patterns []string, opts Options) (*Engine, error) {
 		funcs: map[string]*ssa.Function{}, tids: map[string]int{}, tidType: map[int]types.Type{},
 		globals: map[*ssa.Global]int64{}, fnIDs: map[*ssa.Function]int64{}, fnByID: map[int64]*ssa.Function{},
 		strLits: map[string]*Term{}, infos: map[*ssa.Function]*FuncInfo{}, opts: opts,
-		pkgByPath: map[string]*packages.Package{}, spkgs: map[string]*ssa.Package{}, ghostGlobals: map[string]int64{},
+		pkgByPath: map[string]*packages.Package{}, pureBody: map[*ssa.Function]bool{}, spkgs: map[string]*ssa.Package{}, ghostGlobals: map[string]int64{},
 	}
 	e.fset = token.NewFileSet()
 	cfg := &packages.Config{
@@ -213,7 +214,7 @@ func (e *Engine) loadContracts(externDir string) error {
 // loadAxioms evaluates axiom clauses of the contract files into background formulas.
 func (e *Engine) loadAxioms() error {
 	v := &Verifier{e: e, counters: map[string]int{}, key: "axioms"}
-	st := &State{e: e, mem: map[Kind]*Term{}, maps: map[string]*Term{}, clos: map[string]*closureVal{}, held: map[string]bool{}, nonnil: map[string]bool{}}
+	st := &State{e: e, mem: map[Kind]*Term{}, maps: map[string]*Term{}, clos: map[string]*closureVal{}, held: map[string]*heldLock{}, nonnil: map[string]bool{}}
 	st.next = IntLit(1)
 	var err error
 	func() {
